@@ -22,13 +22,22 @@ cell, in a helper subprocess per shard.  This file is the *model* side and impor
        on SIGHUP, while nothing / the framework / GUNICORN_CMD_ARGS / the command line also mentions the
        setting and other settings are held by the file, GUNICORN_CMD_ARGS and the command line;
     RI the edit introduces a value the validator rejects, placed first / in the middle / last in the file;
+    RE reload histories (no edit at all / add / change / remove) whose configuration file additionally carries
+       `raw_env` entries naming VARIABLES GUNICORN READS ITSELF: GUNICORN_CMD_ARGS=<flag of the setting under test>
+       <another valid value> <flag of a setting nobody mentions> <value> (some also WEB_CONCURRENCY, PORT,
+       FORWARDED_ALLOW_IPS; some the same text under an unrelated variable name, as control), present from the
+       start, introduced by the edit (then a second reload follows) or dropped by it; plus the plain control: such
+       a file at start-up, observed on the master after it exported the variables.  `raw_env` is a SETTING (what the
+       master exports for the application), not a configuration source: the model ignores what its entries say;
 * the oracle: effective value == normal form of the value of the most authoritative mentioning source
   (command line > GUNICORN_CMD_ARGS > config file > framework defaults > built-in default); every setting
   nobody mentioned == its built-in default (baseline load); exactly the designated config file was executed.
-  After a reload the master adopts app.cfg exactly when app.reload() returns (Arbiter.reload): then that
-  configuration must be the merge of the sources AS THEY ARE NOW (nothing of the former file version may
-  linger); when the file now holds a rejected value the reload must not return (the master stops with an
-  error status) - or, at the very least, what it returns with must still be the former merge in every setting.
+  Reloads are the real Arbiter.reload() on a real Arbiter (outward effects neutralised, see vlib/e7_config.py):
+  when it returns, the configuration the master runs with (arb.cfg) must be the merge of the sources AS THEY
+  ARE NOW (nothing of the former file version may linger, nothing the master exported for the application may
+  act as GUNICORN_CMD_ARGS); when the file now holds a rejected value the reload must not return (the master
+  stops with an error status) - or, at the very least, what it returns with must still be the former merge in
+  every setting.
   File values are written the ways real files write them: literals, functions / classes defined in the file,
   functions / callable objects / classes imported from a module next to the file, functools.partial objects,
   enum members of the standard library.
@@ -53,10 +62,16 @@ from vlib.e7_config import ser
 PROP = "C16"
 RULE = ("cell = (kind, setting, set of mentioning sources, value assignment, way the config file is delivered | "
         "invalid representative, carrying source, fallback source | reload history: edit of the file (add, change, "
-        "remove, unlink, rejected value at a position), other source mentioning the setting, delivery); non-trivial = "
+        "remove, unlink, rejected value at a position; with raw_env: none / add / change / remove, or start-up only), "
+        "other source mentioning the setting, delivery, for raw_env histories the variables its entries name "
+        "(GUNICORN_CMD_ARGS carrying flags for the setting under test and for an unmentioned setting | that plus "
+        "WEB_CONCURRENCY, PORT, FORWARDED_ALLOW_IPS | an unrelated name) and when the file carries them (from the "
+        "start | introduced by the edit | dropped by the edit)); non-trivial = "
         "the mentioning sources do not all say the same normal form (one source: it differs from the built-in "
         "default), every invalid cell, every cross-setting cell, every history whose edit changes what the merge of "
-        "the sources is or leaves a more authoritative source in charge; distinct by cell")
+        "the sources is or leaves a more authoritative source in charge, every raw_env cell whose entries name "
+        "GUNICORN_CMD_ARGS (what they say always differs from the merge of the sources in at least one setting); "
+        "distinct by cell")
 SOURCES = ("cli", "env", "file", "framework")          # most authoritative first
 NSHARDS = 32
 FLAG = True                                            # cli rendering of store_true / store_const flags
@@ -422,6 +437,11 @@ def enumerate_cells(meta, tier, seed):
 R_DELIVERIES = ("cli-c", "env-c", "discover", "fileprefix")     # the file is read again on reload in all of these
 R_OPS = ("add", "change", "remove")
 R_POSITIONS = ("first", "middle", "last")
+RE_OPS = ("same", "add", "change", "remove")
+RE_VARS = ("cmd-args", "cmd-args+defaults", "unrelated")        # what the raw_env entries of the file name
+RE_WHEN = ("initial", "later", "dropped")                       # when the file carries them
+RE_UNRELATED = "C16_HELPER_OPTIONS"
+RE_DEFAULTS = ["WEB_CONCURRENCY=3", "PORT=8123", "FORWARDED_ALLOW_IPS=10.9.9.9"]
 
 
 def enumerate_histories(meta, tier, seed, P):
@@ -453,12 +473,42 @@ def enumerate_histories(meta, tier, seed, P):
                     cells.append({"kind": "RI", "s": m["name"], "bad": bad["label"], "pos": pos, "delivery": dl,
                                   "off": offs[0]})
             n += 1
+    cells.extend(enumerate_raw_env_histories(meta, tier, seed, P))
+    return cells
+
+
+def enumerate_raw_env_histories(meta, tier, seed, P):
+    """RE cells, for every setting with a command line flag (only those can be named in a GUNICORN_CMD_ARGS text)
+    except `config` (the delivery) and `raw_env` (the carrier).  quick: delivery, variables and timing rotate from
+    cell to cell, starting at the seed; {none, GUNICORN_CMD_ARGS also mentions it} x every edit, {framework, command
+    line} x no edit.  thorough: every edit x every other source x every delivery x every timing, variables rotating."""
+    cells = []
+    n = seed
+    for m in meta:
+        pool = pool_for(m, P)
+        if pool is None or not m["cli"] or m["name"] in ("config", "raw_env"):
+            continue
+        off = seed % len(pool)
+        combos = [(op, ctx) for op in RE_OPS for ctx in ("none", "framework", "env", "cli")
+                  if tier != "quick" or ctx in ("none", "env") or op == "same"]
+        for op, ctx in combos:
+            for dl in ([R_DELIVERIES[n % 4]] if tier == "quick" else R_DELIVERIES):
+                for when in ([RE_WHEN[(n // 4) % 3]] if tier == "quick" else RE_WHEN):
+                    cells.append({"kind": "RE", "s": m["name"], "op": op, "ctx": ctx, "delivery": dl, "off": off,
+                                  "var": RE_VARS[(n // 12 + (0 if tier == "quick" else R_DELIVERIES.index(dl) +
+                                                             RE_WHEN.index(when))) % 3], "when": when})
+            n += 1
+        # the plain control: start-up only, observed on the master after it exported the variables
+        for ctx in ("none", "env"):
+            cells.append({"kind": "RE", "s": m["name"], "op": "start", "ctx": ctx, "delivery": R_DELIVERIES[n % 4],
+                          "off": off, "var": RE_VARS[(n // 4) % 2], "when": "initial"})
+            n += 1
     return cells
 
 
 def signature(c):
     return "|".join(str(c.get(k, "")) for k in ("kind", "s", "subset", "off", "step", "delivery", "a", "b", "src",
-                                                "bad", "fallback", "op", "ctx", "pos"))
+                                                "bad", "fallback", "op", "ctx", "pos", "var", "when"))
 
 
 # ---- from a symbolic cell to a concrete recipe + what the model expects ---------------------------------
@@ -626,7 +676,8 @@ def build_history(cell, MB, P, baseline):
     fw = None
     dpn = ser("app:app")
     default = baseline[name]
-    if cell["kind"] == "R":
+    claims, raw_text = {}, None
+    if cell["kind"] in ("R", "RE"):
         ctx = cell["ctx"]
         c = None
         if ctx != "none":
@@ -646,8 +697,37 @@ def build_history(cell, MB, P, baseline):
         with_b = [(T, t_a), (name, b)] if cell["off"] % 2 == 0 else [(name, b), (T, t_a)]
         without = [(T, t_a)]
         versions = {"add": [without, with_a], "change": [with_a, with_b], "remove": [with_a, without],
-                    "unlink": [with_a, None]}[cell["op"]]
-        invalid = [False, False]
+                    "unlink": [with_a, None], "same": [with_a, with_a], "start": [with_a]}[cell["op"]]
+        if cell["kind"] == "RE":
+            # what the raw_env entries say - to the application; as configuration they say nothing.  The text is a
+            # GUNICORN_CMD_ARGS value: the setting under test with a value no source gives it, and T2 (mentioned by nobody)
+            avoid = tuple(x["nf"] for x in (a, b, c) if x)
+            r = _choose(pool, "env", cell["off"] + 2, avoid, (default,)) or _choose(pool, "env", cell["off"] + 2, ())
+            t2v = t2p[pick(t2p, "env", 1)]
+            tokens = cli_tokens(MB[T2], t2v, "env")
+            claims = {T2: t2v["nf"]}
+            if r is not None:
+                tokens = cli_tokens(m, r, "env") + tokens
+                claims[name] = r["nf"]
+            raw_text = shlex.join(tokens)
+            if cell["var"] == "unrelated":
+                entries, claims = [RE_UNRELATED + "=" + raw_text], {}
+            elif cell["var"] == "cmd-args":
+                entries = ["GUNICORN_CMD_ARGS=" + raw_text]
+            else:
+                entries = RE_DEFAULTS[:1] + ["GUNICORN_CMD_ARGS=" + raw_text] + RE_DEFAULTS[1:]
+            raw = ("raw_env", V(entries))
+
+            def carry(lines):
+                return lines + [raw] if cell["off"] % 2 == 0 else [raw] + lines
+
+            if cell["when"] == "initial":
+                versions = [carry(ls) for ls in versions]
+            elif cell["when"] == "later":       # exported by the reload that reads the edit: a further reload shows it
+                versions = [versions[0], carry(versions[1]), carry(versions[1])]
+            else:                               # dropped by the edit; the reload after that must not see it either
+                versions = [carry(versions[0]), versions[1], versions[1]]
+        invalid = [False] * len(versions)
     else:
         bad = [x for x in invalids_for(m, P) if x["label"] == cell["bad"]][0]
         a = _choose(pool, "file", cell["off"], (), (default,))
@@ -666,14 +746,18 @@ def build_history(cell, MB, P, baseline):
                 ment.setdefault(sname, {})["file"] = v["nf"]
         out.append({"mentions": ment, "load": [load] if lines is not None else [], "invalid": inv,
                     "text": _file_text(lines)[len(e7.FILE_HEADER):] if lines is not None else None,
-                    "origins": [v.get("origin") for sname, v in (lines or []) if sname == name]})
+                    "origins": [v.get("origin") for sname, v in (lines or []) if sname == name],
+                    "raw_env": bool([1 for sname, _ in (lines or []) if sname == "raw_env"]) and cell["kind"] == "RE"})
     recipe = {"argv": argv + ["app:app"], "env": shlex.join(envt),
               "files": {load: _file_text(versions[0])},
               "steps": [{"files": {load: _file_text(ls) if ls is not None else None}} for ls in versions[1:]]}
     if fw is not None:
         recipe["framework"] = (fw["pre"] + "\n" if fw["pre"] else "") + "FRAMEWORK = {%r: %s}\n" % (name, fw["py"])
+    if cell["kind"] == "RE":
+        recipe["master"] = True                 # also without steps: observe the master, after it exported raw_env
     model = {"versions": out, "mentions": out[0]["mentions"], "load": out[0]["load"], "dpn": dpn, "ment": [],
-             "companions": {"file": T, "cli": U, "env": W}}
+             "companions": {"file": T, "cli": U, "env": W}, "raw_env_claims": claims, "raw_env_text": raw_text,
+             "unmentioned": T2}
     return recipe, model
 
 
